@@ -234,15 +234,26 @@ fn eval_filter_expr(
     for predicate in filter.predicates() {
         context.push_size(nodes.len());
         let mut filtered = vec![];
+        let mut failed = None;
         for (position, n) in nodes.into_iter().enumerate() {
             context.push_position(position + 1);
-            if eval_predicate(predicate, n.clone(), context)? {
-                filtered.push(n);
-            }
+            let selected = eval_predicate(predicate, n.clone(), context);
             context.pop_position();
+            match selected {
+                Ok(true) => filtered.push(n),
+                Ok(false) => {}
+                Err(e) => {
+                    failed = Some(e);
+                    break;
+                }
+            }
+        }
+        context.pop_size();
+        // the context is restored before an error is reported: it may be used for further queries
+        if let Some(e) = failed {
+            return Err(e);
         }
         nodes = filtered;
-        context.pop_size();
     }
 
     Ok(nodes.as_value())
@@ -414,15 +425,26 @@ fn eval_axis_node_test(
     for predicate in predicates {
         context.push_size(nodes.len());
         let mut filtered = vec![];
+        let mut failed = None;
         for (position, n) in nodes.into_iter().enumerate() {
             context.push_position(position + 1);
-            if eval_predicate(predicate, n.clone(), context)? {
-                filtered.push(n);
-            }
+            let selected = eval_predicate(predicate, n.clone(), context);
             context.pop_position();
+            match selected {
+                Ok(true) => filtered.push(n),
+                Ok(false) => {}
+                Err(e) => {
+                    failed = Some(e);
+                    break;
+                }
+            }
+        }
+        context.pop_size();
+        // the context is restored before an error is reported: it may be used for further queries
+        if let Some(e) = failed {
+            return Err(e);
         }
         nodes = filtered;
-        context.pop_size();
     }
 
     Ok(nodes)
